@@ -904,6 +904,123 @@ static void caseLayoutTwice(long k, vh::Rng &r) {
     vh::endCase();
 }
 
+
+// ------------------------------------------------------------------------------------ comparators
+// class `cmp`: the real comparators that order std::set / std::sort / list::sort / the pairing heap are called on
+// keys with many ties; the driver evaluates the comparators GENERATED from the same source (Gen/Comparators.lean,
+// proved strict weak orders in Props/C20Tie, C11Tie, C06Tie) on the same keys.  One line per comparison:
+//   cmp pt  ax ay bx by r | cmp vid ao an bo bn r | cmp sp a1 a2 b1 b2 r
+//   cmp pin aobj acls adirs ax ay ain bobj bcls bdirs bx by bin r
+//   cmp act atype aid btype bid r            (types ShapeMove..ConnChange; id = id of the action's object)
+//   cmp cc  abts ats asame aslack alid arid  bbts bts bsame bslack blid brid r
+static void caseCmp(long k, vh::Rng &r) {
+    vh::beginCase(k, "cmp");
+    static const double vals[] = {0, 0.25, 0.5, 1, -1, 2.5, 1e9, -0.0};
+    const int NV = 7;      // -0.0 only where the sign cannot matter to the order: never (== and < agree), so use it too
+    auto dv = [&]() { return vals[r.range(0, NV)]; };
+    // Point
+    for (int i = 0; i < 24; ++i) {
+        Avoid::Point a(dv(), dv()), b(dv(), dv());
+        if (r.coin(1, 4)) b.x = a.x;
+        if (r.coin(1, 8)) b.y = a.y;
+        printf("cmp pt %s %s %s %s %d\n", H(a.x).c_str(), H(a.y).c_str(), H(b.x).c_str(), H(b.y).c_str(), (int) (a < b));
+    }
+    // VertID (props are not part of the order)
+    for (int i = 0; i < 24; ++i) {
+        Avoid::VertID a((unsigned) r.range(1, 4), (unsigned short) r.range(0, 5), (Avoid::VertIDProps) r.range(0, 3));
+        Avoid::VertID b((unsigned) r.range(1, 4), (unsigned short) r.range(0, 5), (Avoid::VertIDProps) r.range(0, 3));
+        printf("cmp vid %u %u %u %u %d\n", a.objID, (unsigned) a.vn, b.objID, (unsigned) b.vn, (int) (a < b));
+    }
+    // cola::ShapePair (constructor orders the two indices)
+    for (int i = 0; i < 16; ++i) {
+        unsigned a1 = (unsigned) r.range(0, 4), a2 = (unsigned) r.range(0, 4), b1 = (unsigned) r.range(0, 4), b2 = (unsigned) r.range(0, 4);
+        if (a1 == a2) a2 = a1 + 1;
+        if (b1 == b2) b2 = b1 + 1;
+        cola::ShapePair a(a1, a2), b(b1, b2);
+        printf("cmp sp %u %u %u %u %d\n", (unsigned) a.index1(), (unsigned) a.index2(), (unsigned) b.index1(), (unsigned) b.index2(), (int) (a < b));
+    }
+    // ShapeConnectionPin / ActionInfo: real router objects
+    {
+        Avoid::Router *router = new Avoid::Router(Avoid::OrthogonalRouting);
+        struct PK { unsigned obj, cls, dirs; double x, y, in; Avoid::ShapeConnectionPin *pin; };
+        std::vector<PK> pins;
+        std::vector<Avoid::ShapeRef *> shapes;
+        for (int s = 0; s < 2; ++s) {
+            Avoid::Rectangle rect(Avoid::Point(100 * s, 0), Avoid::Point(100 * s + 40, 40));
+            shapes.push_back(new Avoid::ShapeRef(router, rect, 10 + s));
+        }
+        static const double offs[] = {0, 0.25, 0.5, 1};
+        for (int i = 0; i < 10; ++i) {
+            PK p; int s = (int) r.range(0, 1);
+            p.obj = 10 + s; p.cls = (unsigned) r.range(1, 2); p.dirs = (unsigned) (r.coin() ? 0 : r.range(1, 15));
+            p.x = offs[r.range(0, 3)]; p.y = offs[r.range(0, 3)]; p.in = r.coin(3, 4) ? 0.0 : 2.0;
+            bool dup = false;
+            for (size_t j = 0; j < pins.size(); ++j)
+                if (pins[j].obj == p.obj && pins[j].cls == p.cls && pins[j].dirs == p.dirs && pins[j].x == p.x && pins[j].y == p.y && pins[j].in == p.in) dup = true;
+            if (dup) continue;
+            p.pin = new Avoid::ShapeConnectionPin(shapes[s], p.cls, p.x, p.y, true, p.in, (Avoid::ConnDirFlags) p.dirs);
+            pins.push_back(p);
+        }
+        for (size_t i = 0; i < pins.size(); ++i)
+            for (size_t j = 0; j < pins.size(); ++j) {
+                const PK &a = pins[i], &b = pins[j];
+                printf("cmp pin %u %u %u %s %s %s %u %u %u %s %s %s %d\n", a.obj, a.cls, a.dirs, H(a.x).c_str(), H(a.y).c_str(), H(a.in).c_str(),
+                       b.obj, b.cls, b.dirs, H(b.x).c_str(), H(b.y).c_str(), H(b.in).c_str(), (int) (*a.pin < *b.pin));
+            }
+        Avoid::JunctionRef *j1 = new Avoid::JunctionRef(router, Avoid::Point(300, 300), 20);
+        Avoid::JunctionRef *j2 = new Avoid::JunctionRef(router, Avoid::Point(400, 300), 21);
+        Avoid::ConnRef *c1 = new Avoid::ConnRef(router, Avoid::ConnEnd(Avoid::Point(500, 500)), Avoid::ConnEnd(Avoid::Point(600, 500)), 30);
+        Avoid::ConnRef *c2 = new Avoid::ConnRef(router, Avoid::ConnEnd(Avoid::Point(500, 600)), Avoid::ConnEnd(Avoid::Point(600, 600)), 31);
+        std::vector<std::pair<Avoid::ActionInfo, unsigned> > acts;
+        for (int s = 0; s < 2; ++s) {
+            acts.push_back(std::make_pair(Avoid::ActionInfo(Avoid::ShapeMove, shapes[s]), 10u + s));
+            acts.push_back(std::make_pair(Avoid::ActionInfo(Avoid::ShapeAdd, shapes[s]), 10u + s));
+            acts.push_back(std::make_pair(Avoid::ActionInfo(Avoid::ShapeRemove, shapes[s]), 10u + s));
+        }
+        Avoid::JunctionRef *js[2] = {j1, j2};
+        for (int s = 0; s < 2; ++s) {
+            acts.push_back(std::make_pair(Avoid::ActionInfo(Avoid::JunctionMove, js[s]), 20u + s));
+            acts.push_back(std::make_pair(Avoid::ActionInfo(Avoid::JunctionAdd, js[s]), 20u + s));
+            acts.push_back(std::make_pair(Avoid::ActionInfo(Avoid::JunctionRemove, js[s]), 20u + s));
+        }
+        acts.push_back(std::make_pair(Avoid::ActionInfo(Avoid::ConnChange, c1), 30u));
+        acts.push_back(std::make_pair(Avoid::ActionInfo(Avoid::ConnChange, c2), 31u));
+        for (size_t i = 0; i < acts.size(); ++i)
+            for (size_t j = 0; j < acts.size(); ++j)
+                printf("cmp act %d %u %d %u %d\n", (int) acts[i].first.type, acts[i].second, (int) acts[j].first.type, acts[j].second,
+                       (int) (acts[i].first < acts[j].first));
+        acts.clear();
+        router->processTransaction();      // queued additions become members of the router, which then frees them
+        delete router;
+    }
+    // vpsc::CompareConstraints on the constraints of a solved incremental problem (blocks merged, time stamps moved)
+    {
+        size_t n = (size_t) r.range(3, 6);
+        std::vector<vpsc::Variable *> vs;
+        for (size_t i = 0; i < n; ++i) vs.push_back(new vpsc::Variable((int) i, (double) r.range(-3, 3), 1.0));
+        std::vector<vpsc::Constraint *> cs;
+        for (size_t i = 0; i + 1 < n; ++i)
+            for (size_t j = i + 1; j < n; ++j)
+                if (r.coin(1, 2)) cs.push_back(new vpsc::Constraint(vs[i], vs[j], (double) r.range(0, 2)));
+        if (!cs.empty()) {
+            vpsc::IncSolver sv(vs, cs);
+            if (r.coin()) sv.solve();
+            vpsc::CompareConstraints cmp;
+            for (size_t i = 0; i < cs.size(); ++i)
+                for (size_t j = 0; j < cs.size(); ++j) {
+                    vpsc::Constraint *a = cs[i], *b = cs[j];
+                    printf("cmp cc %ld %ld %d %s %d %d %ld %ld %d %s %d %d %d\n",
+                           a->left->block->timeStamp, a->timeStamp, (int) (a->left->block == a->right->block), H(a->slack()).c_str(), a->left->id, a->right->id,
+                           b->left->block->timeStamp, b->timeStamp, (int) (b->left->block == b->right->block), H(b->slack()).c_str(), b->left->id, b->right->id,
+                           (int) cmp(a, b));
+                }
+        }
+        for (size_t j = 0; j < cs.size(); ++j) delete cs[j];
+        for (size_t i = 0; i < n; ++i) delete vs[i];
+    }
+    vh::endCase();
+}
+
 // ------------------------------------------------------------------------------------ main
 int main(int argc, char **argv) {
     vh::Args a = vh::parseArgs(argc, argv);
@@ -929,6 +1046,14 @@ int main(int argc, char **argv) {
         case 10: caseVpscPermute(k, r); break;
         default: caseRouteSymmetryDirs(k, r, (k / NCLASS) % 3 != 2); break;      // 2 strict : 1 arbitrary
         }
+    }
+    // class `cmp` (comparators vs the generated Lean comparators): its own index range after the 12 cycled classes
+    long ncmp = (thorough ? 400 : 60) * a.scale;
+    for (long j = 0; j < ncmp; ++j) {
+        long k = rounds * NCLASS + j;
+        if (!a.want(k)) continue;
+        vh::Rng r = vh::caseRng(a.seed, (uint64_t) k);
+        caseCmp(k, r);
     }
     return 0;
 }
